@@ -148,6 +148,9 @@ type FuncSpec struct {
 	NilOut  bool    `json:"nilout,omitempty"` // pointer-struct result returned as nil
 	// TypedNil: a failing function returns a non-nil error interface holding a nil *myErr
 	TypedNil bool `json:"typednil,omitempty"`
+	// UnsatErr: a failing function returns an error wrapping an *ErrArgumentUnsatisfied
+	// of its own (as a converter that delegates to another Func.Call would)
+	UnsatErr bool `json:"unsaterr,omitempty"`
 }
 
 func (f FuncSpec) sig() string {
@@ -177,6 +180,9 @@ func (f FuncSpec) String() string {
 	}
 	if f.TypedNil {
 		s += "!typednil"
+	}
+	if f.UnsatErr {
+		s += "!unsaterr"
 	}
 	return s
 }
